@@ -503,8 +503,6 @@ theorem precMult_cases (prec : String) :
       · right; right; right; rfl
       · left; rfl
 
-def precOK (prec : String) : Bool := prec == "ns" || prec == "us" || prec == "ms" || prec == "s"
-
 theorem truncDuration_eq (prec : String) (h : precOK prec = true) : truncDuration prec = precMult prec := by
   simp only [precOK, Bool.or_eq_true, beq_iff_eq] at h
   rcases h with ((h | h) | h) | h <;> subst h <;> decide
@@ -732,7 +730,8 @@ theorem holdsOnPt_valid (p : PointIn) (prec : String) (dt : Int)
     List.isEmpty_nil, if_true, pointTags, htagsP, hfieldsP, hmapM, hnameP]
   unfold sameBack
   simp only [Bool.and_eq_true, decide_eq_true_eq]
-  trace_state
-  sorry
+  refine ⟨trivial, ?_, ?_, htq3⟩
+  · exact (sortByKey_sorted (·.key) p.tags hsorted).symm
+  · exact (sortByKey_map ovalOf p.fields).symm
 
 end Influx.LP
